@@ -41,7 +41,7 @@ var compoundRedirs = [][]string{nil, {">", "f"}, {"<<E"}, {"2>", "f", "<", "f"}}
 var leafCommands = [][]string{
 	{"a"}, {"a", "b"}, {"x=1"}, {"x=1", "a"}, {">", "f", "a"}, {"a", ">", "f"}, {"2>", "f", "a", "b"}, {"a", "<<E"}, {"x=1", ">", "f", "a", "b", "<", "f"},
 	{"x=", "x=1", "a"}, {"a", "<<E", "<<F"}, {"<<-E", "a"},
-	{"a", "'q\né'"}, {"a", "$(b\nc)", "b"}, {"a", "<<E", "a\\\nb"}, {"((1 +\n2))"}, {"a", "<<J"}, {"a", "<<'J'", "b"},
+	{"a", "'q\né'"}, {"a", "$(b\nc)", "b"}, {"a", "<<E", "a\\\nb"}, {"((1 +\n2))"}, {"a", "<<J"}, {"a", "<<'J'", "b"}, {"a", "<<L"},
 }
 
 // list forms over two leaves
